@@ -12,7 +12,7 @@ from __future__ import annotations
 import ast
 from typing import Any, Dict, List, Optional, Tuple
 
-from .index import AnalysisError, ClassInfo, ModuleInfo, Repo
+from .index import AnalysisError, ClassInfo, ModuleInfo, Repo, clone
 
 
 class FoldRaise(Exception):
@@ -585,3 +585,54 @@ def table(folder: Folder, domain, fn) -> Dict[Any, Any]:
         except FoldRaise as r:
             out[x] = ('raise', r.kind)
     return out
+
+
+# --------------------------------------------------------------------------------------------------
+# partial evaluation of guard atoms under a valuation
+# --------------------------------------------------------------------------------------------------
+class NoValue:
+    pass
+
+
+NOVALUE = NoValue()
+
+
+class PartialEvaluator:
+    """Evaluates an expression (typically a guard atom after path substitution) where some
+    sub-expressions are given values by `matchers` (callables node -> value | NOVALUE, tried
+    top-down) and the rest must fold to constants.  Returns NOVALUE when the expression depends
+    on something no matcher knows - the caller treats that atom as unknown (three-valued)."""
+
+    def __init__(self, folder: Folder, mod: ModuleInfo, matchers):
+        self.folder, self.mod, self.matchers = folder, mod, matchers
+
+    def eval(self, e: ast.AST):
+        env: Dict[str, Any] = {}
+        counter = [0]
+        matchers = self.matchers
+
+        class T(ast.NodeTransformer):
+            def visit(self, node):
+                if isinstance(node, ast.expr):
+                    for m in matchers:
+                        v = m(node)
+                        if v is not NOVALUE:
+                            name = f'__pe{counter[0]}'
+                            counter[0] += 1
+                            env[name] = v
+                            return ast.Name(name, ast.Load())
+                return super().visit(node)
+        tree = T().visit(clone(e))
+        self.folder.steps = 0
+        try:
+            return self.folder._eval(tree, env, self.mod, None)
+        except (Unsupported, FoldRaise):
+            return NOVALUE
+        except (TypeError, AttributeError, KeyError, IndexError, ValueError):
+            return NOVALUE
+
+    def truth(self, e: ast.AST) -> Optional[bool]:
+        v = self.eval(e)
+        if v is NOVALUE:
+            return None
+        return Folder._truth(v)
